@@ -1,12 +1,506 @@
-//! C13: harness not built yet.
+//! C13: a subscriber eventually learns every change it subscribed to.
+//!
+//! State-level stream: the REAL `rs_matter::im::subscriptions::Subscriptions<N>` table driven
+//! through the `verif_*` hooks with explicit instants.  The `ReportContext`s returned by
+//! `add` (priming, the subscription is outside the table) and `report` (the subscription is moved
+//! out of the table) are kept alive by the harness until a `fin` op ends them, so that changes,
+//! other reports, purges and removals interleave with in-flight subscriptions exactly as the
+//! responder / reporter tasks of `im.rs` interleave at their await points.
+//!
+//! After every op the complete private state (counters, table in order, in-flight snapshot,
+//! changed-attribute entries in order, live contexts sorted by id) is dumped.
+use std::panic::{catch_unwind, AssertUnwindSafe};
+
+use crate::proto::{parse_cases, Case, Out};
+use crate::rng::Rng;
 use crate::Args;
 
-pub fn gen(_a: &Args) -> String {
-    eprintln!("C13: harness not built yet");
-    std::process::exit(2);
+use core::num::NonZeroU8;
+use embassy_time::Instant;
+use rs_matter::im::subscriptions::{ReportContext, Subscriptions, SubscriptionsBuffers, VerifItem, VerifSub};
+use rs_matter::im::IMBuffer;
+use rs_matter::utils::storage::pooled::{Buffers, PooledBuffers};
+
+const POOL: usize = 6;
+type Pool = PooledBuffers<IMBuffer, POOL>;
+
+const HZ: u64 = embassy_time::TICK_HZ;
+
+/// the probed universe of concrete paths (endpoint-major), shared with the Lean driver
+fn probes() -> Vec<(u16, u32, u32)> {
+    let mut v = Vec::new();
+    for e in 0..3u16 {
+        for c in 1..4u32 {
+            for a in 0..4u32 {
+                v.push((e, c, a));
+            }
+        }
+    }
+    v
 }
 
-pub fn replay(_a: &Args) -> String {
-    eprintln!("C13: harness not built yet");
-    std::process::exit(2);
+fn r_sub(s: &VerifSub) -> String {
+    format!(
+        "{},{},{},{},{},{},{},{},{},{}",
+        s.id,
+        s.fab_idx,
+        s.peer_node_id,
+        s.min_int_secs,
+        s.max_int_secs,
+        s.reported_at,
+        s.retry_at,
+        s.fail_count,
+        s.max_seen_attr_change_id,
+        s.max_seen_event_number
+    )
+}
+
+fn join_or(v: Vec<String>) -> String {
+    if v.is_empty() {
+        "-".into()
+    } else {
+        v.join(";")
+    }
+}
+
+struct Runner<'a, 's, const N: usize> {
+    pool: &'a Pool,
+    subs: &'s Subscriptions<N>,
+    bufs: &'s SubscriptionsBuffers<'a, Pool, N>,
+    ctxs: Vec<(u32, ReportContext<'a, 's, Pool, N>)>,
+    dead: bool,
+    /// generator-visible facts
+    last_table: Vec<VerifSub>,
+}
+
+impl<'a, 's, const N: usize> Runner<'a, 's, N> {
+    fn dump(&mut self) -> String {
+        let mut counters = String::new();
+        let mut table = Vec::new();
+        let mut tab_views = Vec::new();
+        let mut reporting = "-".to_string();
+        let mut entries = Vec::new();
+        self.subs.verif_visit(&mut |it| match it {
+            VerifItem::Counters { next_subscription_id, subscriptions_count, next_change_id, reporting_cancelled } => {
+                counters = format!(
+                    "{} {} {} {}",
+                    next_subscription_id,
+                    subscriptions_count,
+                    next_change_id,
+                    if reporting_cancelled { 1 } else { 0 }
+                );
+            }
+            VerifItem::Sub(s) => {
+                table.push(r_sub(&s));
+                tab_views.push(s);
+            }
+            VerifItem::Reporting(s) => reporting = r_sub(&s),
+            VerifItem::Entry { endpoint, cluster, attr, change_id } => {
+                entries.push(format!("{}.{}.{}@{}", endpoint, cluster, attr, change_id))
+            }
+        });
+        self.last_table = tab_views;
+        let mut cx: Vec<(u32, String)> = self
+            .ctxs
+            .iter()
+            .map(|(id, c)| {
+                let n = c.verif_next();
+                (*id, format!("{},{},{},{},{},{}", id, n.0, n.1, n.2, n.3, n.4))
+            })
+            .collect();
+        cx.sort();
+        format!(
+            "{} | {} | {} | {} | {}",
+            counters,
+            reporting,
+            join_or(table),
+            join_or(entries),
+            join_or(cx.into_iter().map(|x| x.1).collect())
+        )
+    }
+
+    fn exec_inner(&mut self, op: &str) -> String {
+        let w: Vec<&str> = op.split_whitespace().collect();
+        let num = |i: usize| -> u64 { w.get(i).and_then(|x| x.parse::<u64>().ok()).unwrap_or(0) };
+        match w.first().copied().unwrap_or("") {
+            "chg" => {
+                self.subs.verif_notify_attr_changed(num(1) as u16, num(2) as u32, num(3) as u32);
+                "-".into()
+            }
+            "chgw" => {
+                let e = w.get(1).and_then(|x| x.parse::<u16>().ok());
+                let c = if e.is_none() { None } else { w.get(2).and_then(|x| x.parse::<u32>().ok()) };
+                self.subs.verif_notify_wildcard(e, c);
+                "-".into()
+            }
+            "add" => {
+                let Some(buf) = self.pool.get_immediate() else {
+                    return "nobuf".into();
+                };
+                let fab = NonZeroU8::new((num(2) as u8).max(1)).unwrap();
+                match self.subs.verif_add(
+                    Instant::from_ticks(num(1)),
+                    fab,
+                    num(3),
+                    num(4) as u16,
+                    num(5) as u16,
+                    num(6),
+                    buf,
+                    self.bufs,
+                ) {
+                    Some(c) => {
+                        let id = c.subscription().ids().id;
+                        self.ctxs.push((id, c));
+                        format!("some {}", id)
+                    }
+                    None => "none".into(),
+                }
+            }
+            "rep" => {
+                // the reporter task is sequential: a second `report` while one is in flight would
+                // trip the `debug_assert!(self.reporting.is_none())` precondition
+                if self.subs.verif_is_reporting() {
+                    return "busy".into();
+                }
+                match self.subs.verif_report(Instant::from_ticks(num(1)), num(2), self.bufs) {
+                    Some(c) => {
+                        let id = c.subscription().ids().id;
+                        self.ctxs.push((id, c));
+                        format!("some {}", id)
+                    }
+                    None => "none".into(),
+                }
+            }
+            "q" => {
+                let id = num(1) as u32;
+                match self.ctxs.iter().find(|(i, _)| *i == id) {
+                    None => "noctx".into(),
+                    Some((_, c)) => {
+                        let bits: String = probes()
+                            .iter()
+                            .map(|(e, cl, a)| if c.should_report_attr(*e, *cl, *a) { '1' } else { '0' })
+                            .collect();
+                        format!(
+                            "{} {} {}",
+                            bits,
+                            if c.should_send_if_empty() { 1 } else { 0 },
+                            c.max_seen_event_number()
+                        )
+                    }
+                }
+            }
+            "fin" => {
+                let id = num(1) as u32;
+                match self.ctxs.iter().position(|(i, _)| *i == id) {
+                    None => "noctx".into(),
+                    Some(p) => {
+                        let (_, mut c) = self.ctxs.remove(p);
+                        match w.get(2).copied().unwrap_or("drop") {
+                            "keep" => c.set_keep(),
+                            "retry" => c.set_keep_retry(),
+                            _ => {}
+                        }
+                        drop(c);
+                        "done".into()
+                    }
+                }
+            }
+            "purge" => {
+                self.subs.verif_purge_reported_changes();
+                "-".into()
+            }
+            "rm" => {
+                let fab = num(1) as u8;
+                let peer = num(2);
+                let r = self.subs.verif_remove(self.bufs, |s| {
+                    let v = s.verif_view();
+                    (v.fab_idx == fab && v.peer_node_id == peer).then_some("verif rm")
+                });
+                format!("{}", r)
+            }
+            "rmexp" => {
+                let now = Instant::from_ticks(num(1));
+                let r = self.subs.verif_remove(self.bufs, |s| s.is_expired(now).then_some("expired"));
+                format!("{}", r)
+            }
+            "nra" => format!("{}", self.subs.verif_next_report_at(num(1), self.bufs).as_ticks()),
+            _ => "badop".into(),
+        }
+    }
+
+    fn exec(&mut self, op: &str) -> String {
+        if self.dead {
+            return "panic".into();
+        }
+        let r = catch_unwind(AssertUnwindSafe(|| {
+            let res = self.exec_inner(op);
+            let d = self.dump();
+            format!("{} | {}", res, d)
+        }));
+        match r {
+            Ok(s) => s,
+            Err(_) => {
+                self.dead = true;
+                // contexts may refer to a poisoned table: forget them instead of dropping
+                for c in self.ctxs.drain(..) {
+                    std::mem::forget(c);
+                }
+                "panic".into()
+            }
+        }
+    }
+
+    fn finish(&mut self) {
+        // end the remaining contexts quietly (plain drop)
+        let _ = catch_unwind(AssertUnwindSafe(|| {
+            self.ctxs.clear();
+        }));
+    }
+}
+
+fn with_runner<const N: usize, R>(f: impl FnOnce(&mut Runner<'_, '_, N>) -> R) -> R {
+    let pool: Box<Pool> = Box::new(Pool::new());
+    let bufs: Box<SubscriptionsBuffers<'_, Pool, N>> = Box::new(SubscriptionsBuffers::new());
+    let subs: Box<Subscriptions<N>> = Box::new(Subscriptions::new());
+    let mut r = Runner { pool: &pool, subs: &subs, bufs: &bufs, ctxs: Vec::new(), dead: false, last_table: Vec::new() };
+    let out = f(&mut r);
+    r.finish();
+    out
+}
+
+fn cap_of(kind: &str) -> usize {
+    kind.split_whitespace().nth(1).and_then(|x| x.parse().ok()).unwrap_or(2)
+}
+
+fn replay_case(out: &mut Out, case: &Case) {
+    let n = cap_of(&case.kind).clamp(1, 4);
+    out.case(case.id, &format!("subs {} {}", n, HZ));
+    fn go<const N: usize>(out: &mut Out, case: &Case) {
+        with_runner::<N, _>(|r| {
+            for op in &case.ops {
+                let o = r.exec(op);
+                out.op(op, &o);
+            }
+        })
+    }
+    match n {
+        1 => go::<1>(out, case),
+        2 => go::<2>(out, case),
+        3 => go::<3>(out, case),
+        _ => go::<4>(out, case),
+    }
+}
+
+/// Generator: one interleaving of changes, primings, reporter passes, purges, removals.
+fn gen_case<const N: usize>(id: u64, r: &mut Rng, thorough: bool, out: &mut Out) {
+    let (start_len, start_ops) = (out.buf.len(), out.ops);
+    out.case(id, &format!("subs {} {}", N, HZ));
+    let keep_case = with_runner::<N, _>(|run| {
+        let len = if thorough { r.range(10, 140) } else { r.range(8, 45) } as usize;
+        // time base: mostly small, rarely close to the end of time (checked_add overflow paths)
+        let mut t: u64 = if r.chance(1, 40) { u64::MAX - 1 - r.range(0, 200) * HZ } else { r.range(0, 50) * HZ };
+        let mut evwm: u64 = if r.chance(1, 3) { r.range(0, 5) } else { 0 };
+        let mut n_ops = 0usize;
+        let mut saw_flight_change = false;
+        let mut saw_report = false;
+        let mut saw_purge = false;
+        let hot: Vec<(u16, u32, u32)> = (0..r.range(1, 4)).map(|_| (r.below(3) as u16, r.range(1, 3) as u32, r.below(4) as u32)).collect();
+        let mins = [0u64, 0, 1, 1, 2, 5, 30];
+        let maxs = [1u64, 2, 4, 10, 40, 60, 600, 65535];
+        let step = |run: &mut Runner<'_, '_, N>, out: &mut Out, op: String| -> String {
+            let o = run.exec(&op);
+            out.op(&op, &o);
+            o
+        };
+        while n_ops < len {
+            n_ops += 1;
+            // advance time
+            if r.chance(1, 2) {
+                let dt = match r.below(10) {
+                    0 => 1,
+                    1 => HZ - 1,
+                    2 | 3 => HZ,
+                    4 => 2 * HZ,
+                    5 => 5 * HZ,
+                    6 => 20 * HZ,
+                    7 => 30 * HZ,
+                    8 => r.range(0, 700) * HZ,
+                    _ => r.range(0, 3 * HZ),
+                };
+                // `Instant::MAX` itself is the "not yet primed" sentinel, never a real instant
+                t = t.saturating_add(dt).min(u64::MAX - 1);
+            }
+            if r.chance(1, 6) {
+                evwm += r.range(1, 3);
+                out.stat("ev_advance", 1);
+            }
+            let open: Vec<u32> = run.ctxs.iter().map(|c| c.0).collect();
+            let reporting = run.subs.verif_is_reporting();
+            let k = r.below(100);
+            if k < 28 {
+                let (e, c, a) = if r.chance(2, 3) { *r.pick(&hot) } else { (r.below(3) as u16, r.range(1, 3) as u32, r.below(4) as u32) };
+                step(run, out, format!("chg {} {} {}", e, c, a));
+                out.stat("op_chg", 1);
+                if !open.is_empty() {
+                    saw_flight_change = true;
+                }
+            } else if k < 31 {
+                // burst: fill / overflow the 16-entry table
+                let cnt = r.range(10, 40);
+                for _ in 0..cnt {
+                    // sometimes attributes outside the probed universe so that promotion has many groups
+                    let a = if r.chance(1, 3) { r.range(4, 30) } else { r.below(4) };
+                    step(run, out, format!("chg {} {} {}", r.below(3), r.range(1, 3), a));
+                }
+                out.stat("op_burst", 1);
+                if !open.is_empty() {
+                    saw_flight_change = true;
+                }
+            } else if k < 34 {
+                let op = match r.below(4) {
+                    0 => "chgw * *".to_string(),
+                    1 => format!("chgw {} *", r.below(3)),
+                    _ => format!("chgw {} {}", r.below(3), r.range(1, 3)),
+                };
+                step(run, out, op);
+                out.stat("op_chgw", 1);
+                if !open.is_empty() {
+                    saw_flight_change = true;
+                }
+            } else if k < 46 {
+                let min = *r.pick(&mins);
+                let max = if r.chance(1, 12) { r.range(0, 3) } else { *r.pick(&maxs) };
+                step(run, out, format!("add {} {} {} {} {} {}", t, r.range(1, 2), r.range(10, 12), min, max, evwm));
+                out.stat("op_add", 1);
+            } else if k < 64 {
+                if reporting {
+                    n_ops -= 1;
+                    if r.chance(1, 20) {
+                        step(run, out, format!("rep {} {}", t, evwm));
+                        out.stat("op_rep_busy", 1);
+                    }
+                    continue;
+                }
+                let o = step(run, out, format!("rep {} {}", t, evwm));
+                if let Some(rest) = o.strip_prefix("some ") {
+                    saw_report = true;
+                    out.stat("op_rep_some", 1);
+                    let sid: u32 = rest.split_whitespace().next().and_then(|x| x.parse().ok()).unwrap_or(0);
+                    step(run, out, format!("q {}", sid));
+                    if r.chance(1, 2) {
+                        let mode = match r.below(10) {
+                            0..=5 => "keep",
+                            6..=8 => "retry",
+                            _ => "drop",
+                        };
+                        step(run, out, format!("fin {} {}", sid, mode));
+                        out.stat(&format!("fin_report_{}", mode), 1);
+                    }
+                } else {
+                    out.stat("op_rep_none", 1);
+                }
+            } else if k < 80 {
+                if open.is_empty() {
+                    n_ops -= 1;
+                    if r.chance(1, 30) {
+                        step(run, out, format!("fin {} keep", r.range(1, 5)));
+                    } else if r.chance(1, 4) {
+                        n_ops += 1;
+                        step(run, out, "purge".to_string());
+                        saw_purge = true;
+                        out.stat("op_purge", 1);
+                    }
+                    continue;
+                }
+                let sid = *r.pick(&open);
+                if r.chance(1, 4) {
+                    step(run, out, format!("q {}", sid));
+                }
+                let mode = match r.below(20) {
+                    0..=12 => "keep",
+                    13..=16 => "retry",
+                    _ => "drop",
+                };
+                step(run, out, format!("fin {} {}", sid, mode));
+                out.stat(&format!("fin_{}", mode), 1);
+            } else if k < 90 {
+                step(run, out, "purge".to_string());
+                saw_purge = true;
+                out.stat("op_purge", 1);
+            } else if k < 93 {
+                step(run, out, format!("rm {} {}", r.range(1, 2), r.range(10, 12)));
+                out.stat("op_rm", 1);
+            } else if k < 97 {
+                step(run, out, format!("rmexp {}", t));
+                out.stat("op_rmexp", 1);
+            } else {
+                step(run, out, format!("nra {}", evwm));
+                out.stat("op_nra", 1);
+            }
+        }
+        // wind down: end open contexts, let time pass and run reporter passes so that owed changes surface
+        let open: Vec<u32> = run.ctxs.iter().map(|c| c.0).collect();
+        for sid in open {
+            let mode = if r.chance(3, 4) { "keep" } else { "retry" };
+            step(run, out, format!("fin {} {}", sid, mode));
+        }
+        for _ in 0..2 {
+            step(run, out, "purge".to_string());
+            t = t.saturating_add(*r.pick(&[HZ, 2 * HZ, 5 * HZ, 31 * HZ])).min(u64::MAX - 1);
+            step(run, out, format!("nra {}", evwm));
+            for _ in 0..N + 1 {
+                let o = step(run, out, format!("rep {} {}", t, evwm));
+                if let Some(rest) = o.strip_prefix("some ") {
+                    saw_report = true;
+                    let sid: u32 = rest.split_whitespace().next().and_then(|x| x.parse().ok()).unwrap_or(0);
+                    step(run, out, format!("q {}", sid));
+                    step(run, out, format!("fin {} keep", sid));
+                } else {
+                    break;
+                }
+            }
+        }
+        if saw_flight_change {
+            out.stat("cases_with_change_during_flight", 1);
+        }
+        if saw_flight_change && saw_report && saw_purge {
+            out.buf.push_str("#nt\n");
+            true
+        } else {
+            false
+        }
+    });
+    if !keep_case {
+        // only non-trivial cases are kept (the evidence counts what it says it counts)
+        out.buf.truncate(start_len);
+        out.ops = start_ops;
+        out.cases -= 1;
+        out.stat("dropped_trivial_cases", 1);
+    }
+}
+
+pub fn gen(a: &Args) -> String {
+    let mut r = Rng::new(a.seed);
+    let mut out = Out::default();
+    out.buf.push_str("#rule a case is one interleaving on a fresh real Subscriptions<N> table (N in 1..4) of attribute changes (hot paths, bursts overflowing the 16-entry table, wildcards), subscription adds whose priming context stays open, reporter report begins with their contexts kept open, keep/retry/drop endings, purges, removals by peer and by expiry, next_report_at queries, under a monotone clock with steps around the negotiated intervals; non-trivial = a change was recorded while a subscription was outside the table, a report was begun and a purge ran; distinct = by operation list\n");
+    let n_cases = if a.thorough { 40000 } else { 4000 };
+    for id in 0..n_cases {
+        let mut cr = r.fork();
+        match cr.below(8) {
+            0 => gen_case::<1>(id, &mut cr, a.thorough, &mut out),
+            1..=3 => gen_case::<2>(id, &mut cr, a.thorough, &mut out),
+            4..=6 => gen_case::<3>(id, &mut cr, a.thorough, &mut out),
+            _ => gen_case::<4>(id, &mut cr, a.thorough, &mut out),
+        }
+    }
+    out.finish()
+}
+
+pub fn replay(a: &Args) -> String {
+    let text = std::fs::read_to_string(a.input.as_ref().expect("--in")).expect("read input");
+    let mut out = Out::default();
+    for c in parse_cases(&text) {
+        replay_case(&mut out, &c);
+    }
+    out.finish()
 }
